@@ -22,7 +22,7 @@ inductive Val
   | cstr (s : Str)               -- `callablestr`
   | repeatDict
   | repeatItem (key : Str)
-  | errorInfo (cls : String) (value : Str) (line col : Nat)
+  | errorInfo (cls : String) (value : Str) (pos : Option (Nat × Nat))   -- (line, column); `none`: position unknown
   | excClass (name : String)
   | excValue (cls : String) (msg : Str)
   | fn (name : String)           -- builtin / harness callables: R, len, str, int, bool
